@@ -510,6 +510,14 @@ func RefScalar(k TK, base int, s string) RefVal {
 		return refDuration(s)
 	case k == KCelsius:
 		return refCelsius(s)
+	case k == KLevel:
+		r := refInt(KInt32, 10, s)
+		if r.HasVal {
+			rv := reflect.New(scalarType(KLevel)).Elem()
+			rv.SetInt(r.Val.Int())
+			r.Val = rv
+		}
+		return r
 	case k == KPoint:
 		return refPoint(s)
 	case k == KOnOff:
